@@ -1,8 +1,9 @@
 (* mir_eval/beat.py over exact rationals: trim_beats, validate (+ the warnings), _get_reference_beat_variations,
    goto, p_score, continuity exactly; cemgil as an exact skeleton (per-beat distance to the nearest estimate, the
    normaliser, the maximum over the metrical variations) with the Gaussian `exp(-d^2/(2 sigma^2))` left as a
-   function parameter `g` of the distance `d`.  beat.f_measure is in Model/EventMetrics.v; information_gain is not
-   modelled.  Definitions only.
+   function parameter `g` of the distance `d`; information_gain as an exact skeleton (the normalised beat errors,
+   their wrapping into (-1/2, 1/2] and the two histograms; the entropy/log2 step is not modelled).
+   beat.f_measure is in Model/EventMetrics.v.  Definitions only.
 
    Conventions.
    * A 1-d float array is a `list Q`; Python exceptions are `Raise`; warnings.warn calls are returned as a list of
@@ -57,10 +58,11 @@ Definition validate_events (l : list Q) : res unit :=
   else if negb (nondecreasing l) then Raise ValueError else Ok tt.
 Definition validate (ref est : list Q) : res unit := _ <- validate_events ref ;; validate_events est.
 
-Inductive bwarn := W_ref_empty | W_est_empty | W_ref_one | W_est_one.
+Inductive bwarn := W_ref_empty | W_est_empty | W_ref_one | W_est_one | W_bins_even.
 Definition bwarn_eqb (a b : bwarn) : bool :=
   match a, b with
-  | W_ref_empty, W_ref_empty | W_est_empty, W_est_empty | W_ref_one, W_ref_one | W_est_one, W_est_one => true
+  | W_ref_empty, W_ref_empty | W_est_empty, W_est_empty | W_ref_one, W_ref_one | W_est_one, W_est_one
+  | W_bins_even, W_bins_even => true
   | _, _ => false end.
 Definition validate_warns (ref est : list Q) : list bwarn :=
   (if is_nil ref then [W_ref_empty] else []) ++ (if is_nil est then [W_est_empty] else []).
@@ -292,3 +294,41 @@ Definition continuity (ref est : list Q) (pth qth : Q) : res (Q * Q * Q * Q) :=
     | (c0, t0) :: rest => Ok (c0, t0, fold_left Qmax (map fst rest) c0, fold_left Qmax (map snd rest) t0)
     | [] => Raise IndexError
     end.
+
+(* ---------------------------------------------------------------- information_gain (exact skeleton) *)
+(* beat_error[n] of _get_entropy for the estimated beat x against the reference r0 :: rt (at least two beats);
+   None = a non-finite value (division by a zero interval; np.histogram ignores nan).
+   NOTE the code's first test `if closest_beat == 0` is not chained to the second one with `elif`, so for the first
+   annotation the interval it sets is overwritten by the else-branch below; with a negative error that branch reads
+   reference_beats[closest_beat - 1] = reference_beats[-1], the LAST annotation. *)
+Definition ig_error (x r0 : Q) (rt : list Q) : option Q :=
+  let c := nearest x r0 rt in
+  let err := x - c_val c in
+  let interval :=
+    if (c_idx c =? length rt)%nat || qltb err 0
+    then (1#2) * (c_val c - match c_prev c with Some p => p | None => last rt r0 end)
+    else (1#2) * (match c_next c with Some nx => nx | None => c_val c end - c_val c) in
+  if qeqb interval 0 then None else Some ((1#2) * err / interval).
+(* np.mod(e + 0.5, -1) + 0.5, in (-1/2, 1/2] *)
+Definition ig_wrap (e : Q) : Q := e + 1 + inject_Z (Qfloor (- e - (1#2))).
+(* index of the np.histogram bin of x for the edges np.linspace(-0.5, 0.5, bins + 1) (last bin closed) *)
+Definition ig_bin (bins : nat) (x : Q) : nat := Nat.min (Z.to_nat (Qfloor ((x + (1#2)) * qnat bins))) (bins - 1).
+Definition ig_counts (bins : nat) (errs : list (option Q)) : list nat :=
+  let idx := flat_map (fun o => match o with Some e => [ig_bin bins (ig_wrap e)] | None => [] end) errs in
+  map (fun k => length (filter (Nat.eqb k) idx)) (seq 0 bins).
+(* raw_bin_values of _get_entropy(ref, est, bins) *)
+Definition entropy_counts (ref est : list Q) (bins : nat) : res (list nat) :=
+  match ref with
+  | r0 :: r1 :: rt => Ok (ig_counts bins (map (fun x => ig_error x r0 (r1 :: rt)) est))
+  | _ => Raise IndexError
+  end.
+(* None = the early return 0.0; otherwise the forward and the backward histogram (bins >= 1) *)
+Definition information_gain_counts (ref est : list Q) (bins : nat) : res (option (list nat * list nat)) :=
+  _ <- validate ref est ;;
+  if (length est <=? 1)%nat || (length ref <=? 1)%nat then Ok None
+  else f <- entropy_counts ref est bins ;; b <- entropy_counts est ref bins ;; Ok (Some (f, b)).
+Definition information_gain_warns (ref est : list Q) (bins : nat) : list bwarn :=
+  validate_warns ref est ++
+  match validate ref est with
+  | Ok _ => (if Nat.even bins then [W_bins_even] else []) ++ (if len1 ref then [W_ref_one] else []) ++ (if len1 est then [W_est_one] else [])
+  | Raise _ => [] end.
